@@ -20,7 +20,7 @@ PROP = {
 CLAIM = {
     "engine": "rapid-direct+go-fuzz",
     "technique": "property-based testing (rapid): encode/decode round trip with a field-by-field comparer plus independent hash / sign-bytes / signature recomputation; decoder totality by structured JSON-tree and byte mutation of valid encodings, and native coverage-guided fuzzing (go test -fuzz) of every Unmarshal entry point",
-    "text": "Generated headers, proposed headers, committed headers, prevote/precommit sparse proofs and consensus messages (0..48 validators with ed25519/BLS/mixed keys, nil/empty/short/long byte strings, all annotation combinations, 0..7 proof entries with nil/empty/many signatures, extreme numbers) are encoded by the real codec and decoded again; every consensus-relevant field, the block hash, the proposal and vote sign bytes, genuine signatures and the message variant must be preserved. Valid encodings mutated on the JSON tree (field removal, nulls, type swaps, duplicate keys, short/odd base64, hostile key encodings, huge counts) and on the bytes are offered to all six Unmarshal methods, which must return a value or an error; accepted values must re-encode and decode to themselves. The thorough tier adds six native fuzz targets with the same oracle. Exploration, not proof.",
+    "text": "Generated headers, proposed headers, committed headers, prevote/precommit sparse proofs and consensus messages (0..48 validators with ed25519/BLS/mixed keys, nil/empty/short/long byte strings, all annotation combinations, 0..7 proof entries with nil/empty/many signatures, extreme numbers) are encoded by the real codec and decoded again; every consensus-relevant field, the block hash, the proposal and vote sign bytes, genuine signatures and the message variant must be preserved. Encodings handed out earlier (the last 24 of the process) are kept with private copies and must not change when the codec is called again. Valid encodings mutated on the JSON tree (field removal, nulls, type swaps, duplicate keys, short/odd base64, hostile key encodings, huge counts) and on the bytes are offered to all six Unmarshal methods, which must return a value or an error; accepted values must re-encode and decode to themselves. The thorough tier adds six native fuzz targets with the same oracle. Exploration, not proof.",
     "design_ref": "DESIGN.md section 4 C14",
     "note": "Only the JSON codec (the only MarshalCodec in the repository) is exercised; key types beyond ed25519 and bls-ms are out of scope.",
 }
